@@ -8,7 +8,7 @@ RULE = ("writer-domain construction programs x 4 configurations: validate() afte
         "generator uses, incl. REL, DYNSYM, INIT/FINI_ARRAY, GNU version types) one section's offset is rewritten so that the two "
         "overlap (partially, one inside the other, same start) and the image is loaded and validated: an overlap complaint is "
         "expected; every PT_LOAD segment with file contents whose offset lies in a PROGBITS section gets its virtual address skewed "
-        "by 1..4096: a conflict complaint is expected. Non-trivial = a forced-overlap or skewed-address case.")
+        "by 1..4096: a conflict complaint is expected; both verdicts must survive turning an unrelated section that precedes the segment's program section in the table into an empty program section at or before the segment's offset. Non-trivial = a forced-overlap or skewed-address case.")
 ASSUMPTIONS = ["no 64-bit wrap of offset+size"]
 KEEP_PREFIX = 2
 NO_SHRINK = True
@@ -131,6 +131,26 @@ def second_pass(cases, impl):
             d[pos:pos + wd] = struct.pack(e + ("I" if cls == "32" else "Q"), (g["vaddr"] + skew) % 2**(8 * wd))
             out.append(Case("z%s_sk%d" % (c.id, j), ["#expect segment", "ctor plain", "load str 0 " + hx(bytes(d)), "validate"],
                             {"expect": "segment", "skew": skew}))
+            # an EMPTY program section earlier in the table, at or before the segment's offset, is not "the program section
+            # found at the segment's offset": turning an unrelated earlier section into one changes neither verdict
+            hidx = im.sections.index(host)
+            hosts = [s_ for s_ in im.sections if any(g2["type"] == 1 and s_["offset"] <= g2["offset"] < s_["offset"] + s_["size"] for g2 in im.segments)]
+            victims = [i for i in range(1, hidx) if im.sections[i] not in hosts and i != im.hdr["shstrndx"]]
+            if victims:
+                vi = rng.choice(victims)
+                for base, tag, exp in ((data, "em", "none"), (bytes(d), "ems", "segment")):
+                    d2 = bytearray(base)
+                    sh = im.hdr["shoff"] + vi * im.hdr["shentsize"]
+                    fmt = "I" if cls == "32" else "Q"
+                    o_addr, o_off, o_size = (12, 16, 20) if cls == "32" else (16, 24, 32)
+                    d2[sh + 4:sh + 8] = struct.pack(e + "I", 1)
+                    eo = rng.choice([g["offset"], max(g["offset"] - 1, 0), host["offset"], rng.randint(0, g["offset"])])
+                    d2[sh + o_off:sh + o_off + wd] = struct.pack(e + fmt, eo)
+                    d2[sh + o_size:sh + o_size + wd] = struct.pack(e + fmt, 0)
+                    d2[sh + o_addr:sh + o_addr + wd] = struct.pack(e + fmt, rng.choice([0, g["vaddr"] + 1, rng.getrandbits(8 * wd - 1)]))
+                    out.append(Case("z%s_%s%d" % (c.id, tag, j), (["#expect segment"] if exp == "segment" else []) +
+                                    ["ctor plain", "load str 0 " + hx(bytes(d2)), "validate"],
+                                    {"expect": exp, "skew": skew, "empty_prog_section": vi}))
     return out
 
 
@@ -149,4 +169,5 @@ def distribution(cases):
             for x in c.meta["pair"]:
                 d["overlap_types"][str(x[1])] = d["overlap_types"].get(str(x[1]), 0) + 1
         elif e == "segment": d["skewed_segments"] += 1
+        if "empty_prog_section" in c.meta: d["with_empty_program_section"] = d.get("with_empty_program_section", 0) + 1
     return d
